@@ -1034,6 +1034,12 @@ class Exec:
             # the line arrives in the middle of a backlog: kilobytes of other clients' traffic (short-lived
             # clients on an id nobody else uses) written in the same burst, before and after it
             one = b"7777 C 10.9.8.7 1000 0::1 6667\n7777 n padnick\n7777 D\n"
+            if c.get("padkind") == "stats":
+                # ... or the operator's requests for statistics, which make the daemon write a lot, while the
+                # server is slow to read what the daemon writes
+                one = b"-1 ? stats\n-1 ? config\n"
+                self.h.peerstall()
+                self.w.probe("peer_slow_to_read_during_a_burst")
             data = one * c["pad"][0] + data + one * c["pad"][1]
             self.w.probe("line_inside_a_backlog")
         if c.get("rdf"):
@@ -1049,7 +1055,7 @@ class Exec:
             rep = self.h.feed(data[prev:cp])
             lines += rep.lines()
             for n in rep.notes:
-                if n.startswith("STALL"):
+                if n.startswith("STALL "):
                     # the event loop was run a hundred thousand times with input readable on the server channel
                     # and no read fault outstanding, and the daemon did not read it: it has stopped listening
                     self.w.v(("C08", "C10", "C03"), "input-not-read", "input is readable on the server channel but the daemon "
